@@ -547,6 +547,9 @@ def features(job):
         tags.add(f"span:{s['spanform']}:{how}")
         if p["ord"] >= 2:
             tags.add(f"y0:{s['y0form']}:{how}")
+            if tfe is not None and s["y0form"] == "ndarray-float32" and s["method"] in IC_METHODS \
+                    and s["spanform"] != "ndarray-float32" and not s["nd"]:
+                tags.add("y0:float32-under-the-initial-condition-clause")
     else:
         pat = p["bvp"][s["pattern"] - 1]
         if any(d == 2 for _, d in pat):
